@@ -1,4 +1,4 @@
-"""python -m vf.actor <spec.json> -- perform ONE crop step in a fresh interpreter that only
+"""python -m vf.actor <spec file> -- perform ONE crop step in a fresh interpreter that only
 knows the crop's name and directory (plus, for a sow, the workload to sow).
 
 The outcome is pickled to spec["out"] as ("ok", value) or ("exc", type name, message).
@@ -10,8 +10,8 @@ import pickle
 
 
 def main():
-    with open(sys.argv[1]) as f:
-        spec = json.load(f)
+    with open(sys.argv[1], "rb") as f:
+        spec = pickle.load(f)
     import xyzpy
     from vf import cropkit, common
     common.assert_repo()
